@@ -2068,6 +2068,92 @@ theorem inv5_run (s : PState) (ops : List Op) (hok : ∀ op ∈ ops, op.keyOk = 
 theorem inv5_init (cfg : Cfg) : Inv5 (init cfg) :=
   ⟨fun e he => (by cases he), fun m hm => (by cases hm), fun k hk => (by cases hk), Or.inl ⟨rfl, rfl⟩⟩
 
+/-! ## the result map of BatchGet -/
+
+theorem bgLocal_result (s : PState) : ∀ (ks : List Bytes) (m : Buf) (c : Cache) (miss : List Bytes),
+    (∀ k, (bgLocal s ks m c miss).1.get k =
+      if k ∈ ks ∧ (getLocal s k).isSome = true then getLocal s k else m.get k) ∧
+    (∀ k, k ∈ (bgLocal s ks m c miss).2.2 ↔ k ∈ miss ∨ (k ∈ ks ∧ getLocal s k = none))
+  | [], m, c, miss => by
+    unfold bgLocal
+    exact ⟨fun k => by simp, fun k => by simp⟩
+  | x :: xs, m, c, miss => by
+    unfold bgLocal
+    cases hg : getLocal s x with
+    | some v =>
+      simp only
+      obtain ⟨ih1, ih2⟩ := bgLocal_result s xs (m.put x v) (c.put x (some v)) miss
+      refine ⟨fun k => ?_, fun k => ?_⟩
+      · rw [ih1 k, Buf.get_put]
+        by_cases hkx : x = k
+        · subst hkx
+          simp [hg]
+        · have : (k ∈ x :: xs) ↔ k ∈ xs := by simp [Ne.symm hkx]
+          simp only [hkx, if_false, this]
+      · rw [ih2 k]
+        by_cases hkx : k = x
+        · subst hkx; simp [hg]
+        · simp [hkx]
+    | none =>
+      simp only
+      obtain ⟨ih1, ih2⟩ := bgLocal_result s xs m c (x :: miss)
+      refine ⟨fun k => ?_, fun k => ?_⟩
+      · rw [ih1 k]
+        by_cases hkx : k = x
+        · subst hkx; simp [hg]
+        · simp [hkx]
+      · rw [ih2 k]
+        by_cases hkx : k = x
+        · subst hkx; simp [hg]
+        · simp [hkx]
+
+theorem bgRemote_result (store : Buf) : ∀ (ks : List Bytes) (m : Buf) (c : Cache) (k : Bytes),
+    (bgRemote store ks m c).1.get k = if k ∈ ks ∧ (store.get k).isSome = true then store.get k else m.get k
+  | [], m, c, k => by unfold bgRemote; simp
+  | x :: xs, m, c, k => by
+    unfold bgRemote
+    cases hg : store.get x with
+    | some v =>
+      simp only
+      rw [bgRemote_result store xs (m.put x v) (c.put x (some v)) k, Buf.get_put]
+      by_cases hkx : x = k
+      · subst hkx; simp [hg]
+      · have : (k ∈ x :: xs) ↔ k ∈ xs := by simp [Ne.symm hkx]
+        simp only [hkx, if_false, this]
+    | none =>
+      simp only
+      rw [bgRemote_result store xs m (c.put x none) k]
+      by_cases hkx : k = x
+      · subst hkx; simp [hg]
+      · simp [hkx]
+
+theorem getLocal_some_view {s : PState} {k v : Bytes} (h : getLocal s k = some v) : view s k = some v := by
+  unfold getLocal at h; unfold view
+  cases hm : s.mbuf.get k with
+  | some w => simp [hm] at h; simp [h]
+  | none => simp only [hm] at h; simp only [orE_none]; rw [below_eq, h]; rfl
+
+/-- `BatchGet(ks)` returns, for every requested key, what a read of that key sees below the cache (mutable buffer,
+    flushing buffer, store), and nothing for keys that were not requested -/
+theorem batchGet_result (s : PState) (ks : List Bytes) (k : Bytes) :
+    (batchGet s ks).2.get k = if k ∈ ks then view s k else none := by
+  have hb : (batchGet s ks).2 = (bgRemote s.store (bgLocal s ks [] (s.cache.getD []) []).2.2
+      (bgLocal s ks [] (s.cache.getD []) []).1 (bgLocal s ks [] (s.cache.getD []) []).2.1).1 := by
+    unfold batchGet; rfl
+  obtain ⟨h1, h2⟩ := bgLocal_result s ks [] (s.cache.getD []) []
+  rw [hb, bgRemote_result, h1 k]
+  simp only [h2 k]
+  by_cases hk : k ∈ ks
+  · cases hg : getLocal s k with
+    | some v => simp [hk, hg, getLocal_some_view hg]
+    | none =>
+      obtain ⟨hm, hbl⟩ := getLocal_none hg
+      have hv : view s k = s.store.get k := by unfold view; rw [hm, hbl]; rfl
+      simp only [hk, hg, true_and, List.not_mem_nil, false_or, and_self, Option.isSome_none, Bool.false_eq_true,
+        and_false, if_false, Buf.get_nil, if_true, hv]
+      cases s.store.get k <;> simp
+  · simp [hk]
+
 theorem down_pairwise : ∀ n, (down n).Pairwise (· > ·) ∧ ∀ g ∈ down n, 1 ≤ g ∧ g ≤ n
   | 0 => ⟨List.Pairwise.nil, by simp [down]⟩
   | n + 1 => by
